@@ -516,6 +516,8 @@ def build(env, s, futs, me, fresh):
         f = ConstFuture(s[1])
     elif tag == "nonef":
         f = none_future
+    elif tag == "excval":
+        f = ConstFuture(ValueError(s[1]))       # a future whose *value* happens to be an exception instance
     elif tag == "errfut":
         f = ErrorFuture(env.exc(("errfut", s[1])))
     elif tag == "lazy":
